@@ -449,6 +449,123 @@ func rawPieces(f func([]byte)) {
 	}
 }
 
+// shapeDocs yields every two-line document (and a seeded sample of three-line ones) over each line-shape set of
+// Full.tla: container prefixes (quote marker with and without its space, list markers, indentation, tabs that are
+// consumed in part) crossed with pieces of multi-line inline constructs, with LF, CR and CRLF line endings. The same
+// documents that the composed model decides exactly (direction A) are inputs of every direction-B check.
+func (s *inputSource) shapeDocs(sample3 int, f func([]byte)) {
+	names := make([]string, 0, len(fullShapes))
+	for n := range fullShapes {
+		names = append(names, n)
+	}
+	sortStrings(names)
+	for _, n := range names {
+		sh := fullShapes[n]
+		var closed []string // shapes that end in a line ending can be followed by another line
+		for _, a := range sh {
+			if strings.HasSuffix(a, "\n") || strings.HasSuffix(a, "\r") {
+				closed = append(closed, a)
+			}
+		}
+		for _, a := range closed {
+			for _, b := range sh {
+				f([]byte(a + b))
+			}
+		}
+		for i := 0; i < sample3/len(names); i++ {
+			f([]byte(s.pick(closed) + s.pick(closed) + s.pick(sh)))
+		}
+	}
+}
+
+// escapedNonASCII yields a backslash (and, for contrast, an ampersand) in front of one character from every UTF-8
+// lead-byte range, in text, in a link destination and title, in an info string and in a label: a backslash escapes
+// ASCII punctuation only, whatever a byte-indexed table makes of bytes >= 0x80.
+func escapedNonASCII(f func([]byte)) {
+	chars := []string{"\u00e9", "\u00d7", "\u0700", "\u06c0", "\u07ff", "\u0800", "\u0e01", "\u0fff", "\u1000", "\u4e2d", "\ud7ff", "\uffef", "\U0001f600", "\U0010ffff", "\u00a0", "\u2003"}
+	tmpl := []string{"a\\%sb\n", "*a\\%s*\n", "[a\\%s](/u\\%s \"t\\%s\")\n", "```x\\%s\ny\n```\n", "[l\\%s]: /u\n\n[l\\%s]\n", "<a\\%s>\n", "`\\%s`\n", "&%s;\n", "# h\\%s\n", "> - \\%s\n"}
+	for _, t := range tmpl {
+		for _, c := range chars {
+			f([]byte(strings.ReplaceAll(t, "%s", c)))
+		}
+	}
+}
+
+// backtickRuns yields code-span candidates whose opening and closing backtick strings have every pair of lengths from a
+// list that straddles small table sizes (a code span needs strings of EQUAL length, however long).
+func backtickRuns(f func([]byte)) {
+	lens := []int{1, 2, 3, 30, 31, 32, 33, 34, 35, 63, 64, 65}
+	for _, a := range lens {
+		for _, b := range lens {
+			op, cl := strings.Repeat("`", a), strings.Repeat("`", b)
+			f([]byte("x " + op + "a" + cl + " y\n"))
+			f([]byte("x " + op + " a " + cl + " b " + op + " c\n"))
+			f([]byte("> x " + op + "a\n> b" + cl + " y\n"))
+		}
+	}
+}
+
+// longWrappedLabels yields link labels of 300 to 1000 characters wrapped over many short lines, as definition and as
+// full reference, alone and inside containers whose markers add bytes (but no characters) to every line: the 999
+// character limit counts the label's characters.
+func longWrappedLabels(f func([]byte)) {
+	for _, lineLen := range []int{2, 3, 7} {
+		for _, total := range []int{300, 500, 700, 900, 996, 999, 1002} {
+			var lines []string
+			n := 0
+			for n+lineLen+1 <= total {
+				lines = append(lines, strings.Repeat("a", lineLen))
+				n += lineLen + 1
+			}
+			for _, pre := range []string{"", "> ", ">", "   ", "> > "} {
+				label := strings.Join(lines, "\n"+pre)
+				f([]byte(pre + "[" + label + "]: /u\n" + pre + "\n" + pre + "[x][" + label + "]\n"))
+			}
+			for _, cont := range []string{"  ", "      ", "10.     "} {
+				first := "- "
+				ind := cont
+				if strings.HasPrefix(cont, "10.") {
+					first, ind = cont, strings.Repeat(" ", len(cont))
+				}
+				label := strings.Join(lines, "\n"+ind)
+				f([]byte(first + "[" + label + "]: /u\n\n" + ind + "[x][" + label + "]\n"))
+			}
+		}
+	}
+}
+
+// nulPlacements yields NUL bytes where the NUL padding of the parse buffer meets book-keeping that is done once per root
+// block or once per node: in two or three different root blocks, in reference definition labels (with uses spelled
+// with NUL and with U+FFFD, and a later duplicate), in fenced code info strings, after a block that is closed by its
+// own last line.
+func nulPlacements(f func([]byte)) {
+	blocks := []string{"a\x00b\n", "# h\x00\n", "```i\x00 j\nc\x00\n```\n", "> q\x00\n", "- i\x00\n", "\x00\n", "[r\x00s]: /u\x00 \"t\x00\"\n", "[x][r\x00s] [r\ufffds]\n", "***\n", "plain\n", "<div>\x00\n", "    c\x00\n", "[r\ufffds]: /other\n"}
+	for _, a := range blocks {
+		for _, b := range blocks {
+			f([]byte(a + "\n" + b))
+			f([]byte(a + b))
+			for _, c := range []string{"[r\x00s]\n", "x\x00\n"} {
+				f([]byte(a + "\n" + b + "\n" + c))
+			}
+		}
+	}
+}
+
+// wideMarkers yields ordered list items whose markers are 1 to 9 digits wide (and 10, which is no marker), nested and
+// with continuation lines indented to the content column.
+func wideMarkers(f func([]byte)) {
+	for _, num := range []string{"1", "12", "123456", "1234567", "12345678", "123456789", "1234567890", "000000001"} {
+		for _, d := range []string{".", ")"} {
+			m := num + d
+			ind := strings.Repeat(" ", len(m)+1)
+			f([]byte(m + " x\n"))
+			f([]byte(m + " x\n" + ind + "y\n\n" + ind + "z\n"))
+			f([]byte(m + " x\n" + ind + "- n\n" + ind + "  " + m + " deep\n"))
+			f([]byte("> " + m + " x\n> " + ind + "y\n"))
+		}
+	}
+}
+
 // structured yields the deterministic structured families shared by the input sets of most checks.
 func (s *inputSource) structured(thorough bool, f func([]byte)) {
 	nestedInlines(map[bool]int{false: 3, true: 4}[thorough], f)
@@ -461,6 +578,12 @@ func (s *inputSource) structured(thorough bool, f func([]byte)) {
 	unicodeSpaceEdges(f)
 	bigTrees(f)
 	nulInjected(f)
+	escapedNonASCII(f)
+	backtickRuns(f)
+	longWrappedLabels(f)
+	nulPlacements(f)
+	wideMarkers(f)
+	s.shapeDocs(map[bool]int{false: 3000, true: 90000}[thorough], f)
 	s.lineProducts(map[bool]int{false: 4000, true: 120000}[thorough], func(d []byte) {
 		f(d)
 		// the same document ending without its final line ending (end of input inside every block rule)
@@ -536,8 +659,8 @@ func largeInputs() [][]byte {
 		out = append(out, bench)
 		out = append(out, bench[:70000])
 	}
-	out = append(out, []byte(strings.Repeat("a b c d e f g h i j\n", 1000)))            // one 20 KB paragraph
-	out = append(out, []byte(strings.Repeat("> q\n", 5000)))                               // 20 KB quote
+	out = append(out, []byte(strings.Repeat("a b c d e f g h i j\n", 1000)))                  // one 20 KB paragraph
+	out = append(out, []byte(strings.Repeat("> q\n", 5000)))                                  // 20 KB quote
 	out = append(out, []byte(strings.Repeat("x", 9000)+"\n\n"+strings.Repeat("y\x00", 5000))) // long lines, NULs across chunk borders
 	out = append(out, []byte(strings.Repeat("- item\n\n", 3000)))
 	out = append(out, []byte("```\n"+strings.Repeat("code line\r\n", 8000)+"```\n"))
